@@ -392,6 +392,13 @@ impl DistinguishedName {
 			}
 			dn.push(dn_type, dn_value);
 		}
+		// A `DistinguishedName` is written back attribute by attribute. Refuse a name that
+		// would not come out byte for byte (an empty RDN, an attribute without a value,
+		// non-minimal lengths): what is issued from it would name another issuer or subject.
+		let der = yasna::construct_der(|writer| write_distinguished_name(writer, &dn));
+		if der != name.as_raw() {
+			return Err(Error::CouldNotParseCertificate);
+		}
 		Ok(dn)
 	}
 }
